@@ -27,6 +27,7 @@ func init() {
 			{"C10.state-accept", "stateFromReader accepts only a bitmap whose length equals the value derived from the chunk count", 1, c10StateAccept},
 			{"C10.range-boundaries", "indexRange includes exactly the chunks overlapping the byte range (partition points of its comparisons)", 2, c10RangeBoundaries},
 			{"C10.locks", "done guarded by mu; lock pairing", 5, c10Locks},
+			{"C10.no-shared-scratch", "per-read work lists are not built in memory shared between readers", 1, func(c *Ctx) { c.sharedScratchWrites("sparseFileLoader", "mu") }},
 		},
 	})
 }
